@@ -452,3 +452,16 @@ def shrink_compile(line):
                 yield f"compile {N} {k} {c}"
     if N > 3 and k < N - 1 and set(t[:-1]) != {"I"}:
         yield f"compile {N - 1} {k} {t[:-1]}"
+
+
+# ---- compile_target on a target OBJECT assembled through the in-place / derived-object API (same text as the parsed one)
+def handle_assembled_target(line):
+    import random as _r, pollute
+    r = _r.Random("asm:" + line)
+    old = impl_compiler.get_pauli_string
+    impl_compiler.get_pauli_string = lambda t, *a, **k: (pollute.assembled_string(t, r) if isinstance(t, str) and not a and not k else old(t, *a, **k))
+    try:
+        return impl_compiler.handle(line)
+    finally:
+        impl_compiler.get_pauli_string = old
+ASSEMBLED_TARGETS = "compile:target-assembled-through-the-in-place-API"
